@@ -387,7 +387,9 @@ class Interp:
 
     def x_Raise(self, s, env):
         if s.exc is None:
-            raise Unsupported('bare raise')
+            if getattr(self, '_handling', None):
+                raise self._handling[-1]          # bare `raise` inside an except block: re-raise what is being handled
+            raise Unsupported('bare raise outside an except block')
         e = self.eval(s.exc, env)
         raise PyRaise(e)
 
@@ -409,7 +411,13 @@ class Interp:
                     if match:
                         if h.name:
                             env.vars[h.name] = pr.exc
-                        self.exec_block(h.body, env)
+                        if not hasattr(self, '_handling'):
+                            self._handling = []
+                        self._handling.append(pr)
+                        try:
+                            self.exec_block(h.body, env)
+                        finally:
+                            self._handling.pop()
                         break
                 else:
                     raise
